@@ -715,7 +715,7 @@ func ruleBklMainRoot(p *Prog, r *Result) {
 		if tn, ok := sp.Pkg.Scope().Lookup("options").(*types.TypeName); ok {
 			if st, ok := tn.Type().Underlying().(*types.Struct); ok {
 				for i := 0; i < st.NumFields(); i++ {
-					if st.Field(i).Name() == "RootPath" && strings.Contains(st.Tag(i), `short:"r"`) {
+					if pinnedField(st, i) == "RootPath" && strings.Contains(st.Tag(i), `short:"r"`) {
 						okFlag = true
 					}
 				}
